@@ -897,6 +897,57 @@ func famDischarge(r *Rng, o *Out, tier string) {
 			o.emit(fmt.Sprintf("(tok.discharge %s %s %s %s 1)", hx(kb), hs("https://long.example"), hx(c3.Ticket), hx(make([]byte, 16))), res)
 		}
 	}
+	// conditions attached through Add3P (the convenience entry point) reach the third party exactly as attached -
+	// also when one of them equals a caveat the token already carries, or is attached twice
+	for i := 0; i < n/5; i++ {
+		key, kb := r.Bytes(32), r.Bytes(32)
+		tok, _ := macaroon.New(r.Bytes(8), "https://api.fly.io/v1", key)
+		own := []macaroon.Caveat{r.plainCav(1), r.plainCav(1)}
+		tok.Add(own...)
+		var conds []macaroon.Caveat
+		for k, kk := 0, 1+r.Intn(3); k < kk; k++ {
+			switch r.Intn(3) {
+			case 0:
+				conds = append(conds, own[r.Intn(len(own))]) // equal to a caveat of the token
+			case 1:
+				if len(conds) > 0 {
+					conds = append(conds, conds[r.Intn(len(conds))]) // attached twice
+				} else {
+					conds = append(conds, r.plainCav(1))
+				}
+			default:
+				conds = append(conds, r.plainCav(1))
+			}
+		}
+		if tok.Add3P(kb, "https://conds.example", conds...) != nil {
+			continue
+		}
+		tickets, err := tok.ThirdPartyTickets()
+		ticket := tickets["https://conds.example"]
+		if err != nil || len(ticket) == 0 {
+			o.emit("(const sound)", "add3p:no-ticket")
+			continue
+		}
+		res := guard(func() string {
+			got, dm, err := macaroon.DischargeTicket(kb, "https://conds.example", ticket)
+			if err != nil {
+				return "err:" + err.Error()
+			}
+			return "ok " + sxCavs(got) + " " + hx(mustEnc(dm)) + " " + hx(dm.Nonce.Rnd)
+		})
+		o.count(fmt.Sprintf("add3p.conds.%d", len(conds)))
+		if strings.HasPrefix(res, "ok ") {
+			parts := strings.Split(res, " ")
+			o.emit(fmt.Sprintf("(tok.discharge %s %s %s %s 1)", hx(kb), hs("https://conds.example"), hx(ticket), parts[len(parts)-1]), strings.Join(parts[:len(parts)-1], " "))
+			if strings.HasPrefix(res, "ok "+sxCavs(conds)+" ") {
+				o.emit("(const sound)", "sound")
+			} else {
+				o.emit("(const sound)", "add3p:third-party-recovers-other-conditions-than-attached")
+			}
+		} else {
+			o.emit("(const sound)", "add3p:ticket-does-not-open")
+		}
+	}
 	// sealing the same content twice never yields the same bytes
 	ka := r.Bytes(32)
 	seen := map[string]bool{}
@@ -1064,6 +1115,46 @@ func famBind(r *Rng, o *Out, tier string) {
 				o.emit("(const sound)", fmt.Sprintf("prefix-prebound-wrong:bound=%d,presented=%d,accepted=%v", bi, pi, !want))
 			} else {
 				o.emit("(const sound)", "sound")
+			}
+		}
+		// a hand-written binding LONGER than the 16 bytes Bind writes, right in its first 16 bytes and wrong after
+		// them (one extra byte, or the tail of another node's digest): it is the prefix of no token's id, so the
+		// discharge works with no node - alone, or next to a correct Bind to the same node
+		for k := 0; k < 6; k++ {
+			bi := r.Intn(len(hs))
+			nodeM, _ := macaroon.Decode(hs[bi].bytes)
+			nodeID := sha256.Sum256(nodeM.Tail)
+			otherM, _ := macaroon.Decode(hs[r.Intn(len(hs))].bytes)
+			otherID := sha256.Sum256(append([]byte("x"), otherM.Tail...))
+			ln := pick(r, []int{17, 20, 32})
+			bad := append(append([]byte{}, nodeID[:16]...), otherID[16:ln]...)
+			if bytes.Equal(bad, nodeID[:ln]) {
+				continue
+			}
+			_, d, err := macaroon.DischargeTicket(ka, "https://auth.example", it.tp.ticket)
+			if err != nil {
+				panic(err)
+			}
+			withBind := r.Bool()
+			if withBind && d.Bind(hs[bi].bytes) != nil {
+				continue
+			}
+			bb := macaroon.BindToParentToken(bad)
+			if d.Add(&bb) != nil {
+				continue
+			}
+			dB := mustEnc(d)
+			o.count(fmt.Sprintf("longbinding.len%d.withBind=%v", ln, withBind))
+			for pi := range hs {
+				obs := emitVerify(o, key, hs[pi].bytes, with(dB), nil)
+				if obs == "err:unmodelled" {
+					continue
+				}
+				if strings.HasPrefix(obs, "ok") {
+					o.emit("(const sound)", fmt.Sprintf("long-binding-with-wrong-suffix-accepted:bound=%d,presented=%d", bi, pi))
+				} else {
+					o.emit("(const sound)", "sound")
+				}
 			}
 		}
 		// a binding NESTED in a wrapper is not examined by verification; it reaches clearing, where a binding caveat
